@@ -199,6 +199,19 @@ impl Basic {
                 }
             }
         };
+        if opts.op_kinds.contains(&7) {
+            // Path validation gives up after three probe timeouts, which on a fast path is a few
+            // milliseconds; a rate cap that spaces full-size datagrams further apart than that
+            // (50 kB/s: 24 ms per padded PATH_RESPONSE) makes every validation fail, and since
+            // the late response itself looks like a new migration the two ends go round in
+            // circles for ever (an artefact of the knob combination, see DESIGN.md §A.4): worlds
+            // with migration keep the cap at 1 MB/s or above.
+            for k in [&mut sk, &mut ck] {
+                if k.pacing_cap.is_some_and(|c| c < 1_000_000) {
+                    k.pacing_cap = Some(1_000_000);
+                }
+            }
+        }
         if opts.idle_off {
             sk.idle_ms = None;
             ck.idle_ms = None;
